@@ -209,5 +209,8 @@ const caseTail = "Definition M := Eval vm_compute in mismatches check_case cases
 	"Definition NXTCP_MISMATCHED := Eval vm_compute in (n_xtcp_mismatched cases : Z).\nPrint NXTCP_MISMATCHED.\n" +
 	"Definition NXTCP_KCP_SILENT_FIRST_OK := Eval vm_compute in (n_xtcp_kcp_silent_first cases : Z).\nPrint NXTCP_KCP_SILENT_FIRST_OK.\n" +
 	"Definition NXTCP_QUIC_SILENT_FIRST := Eval vm_compute in (n_xtcp_quic_silent_first cases : Z).\nPrint NXTCP_QUIC_SILENT_FIRST.\n" +
+	"Definition NLONG := Eval vm_compute in (n_long cases : Z).\nPrint NLONG.\n" +
+	"Definition NSYS_PLUGIN_REWRITE := Eval vm_compute in (n_sys_plugin_rewrite cases : Z).\nPrint NSYS_PLUGIN_REWRITE.\n" +
+	"Definition NSYS_PLUGIN_REJECT := Eval vm_compute in (n_sys_plugin_reject cases : Z).\nPrint NSYS_PLUGIN_REJECT.\n" +
 	"Definition NFIRST := Eval vm_compute in (n_first cases : Z).\nPrint NFIRST.\n" +
 	"Definition NSYS_RACE_LOSER := Eval vm_compute in (n_sys_late cases : Z).\nPrint NSYS_RACE_LOSER.\n"
